@@ -1,5 +1,5 @@
 #!/usr/bin/env python3
-"""tools/muttest.py <ID> <mutations.json> [--tests]
+"""tools/muttest.py <ID> <mutations.json> [--tests] [--only <substring of the name>]
 hand-written mutation battery: for each entry {"name", "file", "old", "new"} make a scratch worktree of /repo at
 HEAD under /tmp/mut, replace the first occurrence of old by new in file, optionally run the repository tests, run
 `./check <ID> --tier quick` against it and report caught / missed.  Worktrees are removed again.
@@ -14,6 +14,9 @@ from pathlib import Path
 pid, mfile = sys.argv[1], sys.argv[2]
 with_tests = '--tests' in sys.argv
 muts = json.loads(Path(mfile).read_text())
+if '--only' in sys.argv:      # --only <substring of the mutant name>
+    pat = sys.argv[sys.argv.index('--only') + 1]
+    muts = [m for m in muts if pat in m['name']]
 Path('/tmp/mut').mkdir(exist_ok=True)
 res = []
 for k, m in enumerate(muts):
